@@ -25,6 +25,13 @@ class Unreadable(Exception):
     pass
 
 
+class NeedSplit(Exception):
+    """A loop body is piecewise in a loop-invariant condition: the whole loop is re-run under each assumption."""
+
+    def __init__(self, cond):
+        self.cond = cond
+
+
 class Tup:
     __slots__ = ("items",)
 
@@ -164,6 +171,7 @@ class Evaluator:
         self.inlined: List[str] = []
         self.unknown_calls: Dict[str, int] = {}
         self.extern = extern or {}
+        self.assume: frozenset = frozenset()   # conditions assumed true (loop-invariant splits)
         self.attr_alias: Dict[str, str] = {}   # self.<field> -> expression text it is an alias of
         self.effect_calls: set = set()   # short names of calls recorded as effects (effects mode)
         self.effects_mode = False
@@ -380,6 +388,15 @@ class Evaluator:
         if isinstance(st, ast.Return):
             if st.value is None:
                 return [(conds, env, NONE)]
+            if isinstance(st.value, ast.Call):
+                ec = self._effect_call(st.value, env, ctx)
+                if ec is not None:
+                    out = []
+                    for c2, eff, val in ec:
+                        e2 = dict(env)
+                        self._fx(e2, eff)
+                        out.append((conds | c2, e2, val))
+                    return out
             return [(conds | c2, env, v) for c2, v in self.ev(st.value, env, ctx) if not _contradict(conds | c2)]
         if isinstance(st, ast.If):
             clamp = self._clamp_idiom(st, env, ctx)
@@ -482,6 +499,27 @@ class Evaluator:
         return {small: minmax("min", [vx, vy]), big: minmax("max", [vx, vy])}
 
     def exec_for(self, st: ast.For, conds, env, ctx):
+        try:
+            return self._exec_for(st, conds, env, ctx)
+        except NeedSplit as ns:
+            c = ns.cond
+            from .norm import all_atoms_deep
+            if any(isinstance(a, tuple) and a and a[0] == "loopvar" for a in all_atoms_deep(c.x if isinstance(c.x, Rat) else ("t", c.x))) \
+                    or "loopvar" in repr(c.x):
+                raise Unreadable("loop body is piecewise in a loop-variant condition")
+            out = []
+            saved = self.assume
+            for cc in (c, c.negate()):
+                if _contradict(conds | {cc}):
+                    continue
+                self.assume = saved | {cc}
+                try:
+                    out.extend(self.exec_for(st, conds | {cc}, env, ctx))
+                finally:
+                    self.assume = saved
+            return out
+
+    def _exec_for(self, st: ast.For, conds, env, ctx):
         """Accumulation loops: `for x in it: acc += f(x)` (one or more accumulators, optional filter `if`)."""
         its = self.ev(st.iter, env, ctx)
         if len(its) != 1 or its[0][0]:
@@ -551,6 +589,10 @@ class Evaluator:
                 if not isinstance(tg, (ast.Name, ast.Tuple)):
                     raise Unreadable("store inside accumulation loop")
                 vs = self.ev(b.value, lv_env, ctx)
+                if len(vs) > 1 or (vs and vs[0][0]):
+                    cnd = [x for v_ in vs for x in v_[0]]
+                    if cnd:
+                        raise NeedSplit(sorted(cnd, key=repr)[0])
                 if len(vs) != 1 or vs[0][0]:
                     raise Unreadable("conditional loop local")
                 self.bind(tg, vs[0][1], lv_env, Ctx(ctx.f, ctx.depth + 100, ctx.selfcls))
@@ -667,14 +709,14 @@ class Evaluator:
                             continue
                         term = ("cmp", type(op).__name__, as_term(l), as_term(r))
                         c = Cond("true", term)
-                        out.append((cs, [(True, frozenset([c])), (False, frozenset([c.negate()]))]))
+                        out.append((cs, self._split(c)))
                         continue
                     c = cmp_cond(op, l, r)
                     t = const_truth(c)
                     if t is not None:
                         out.append((cs, [(t, frozenset())]))
                     else:
-                        out.append((cs, [(True, frozenset([c])), (False, frozenset([c.negate()]))]))
+                        out.append((cs, self._split(c)))
             return out
         # truthiness of a value
         out = []
@@ -687,8 +729,15 @@ class Evaluator:
                 out.append((c1, [(v.const_value() != 0, frozenset())]))
             else:
                 c = Cond("true", as_term(v))
-                out.append((c1, [(True, frozenset([c])), (False, frozenset([c.negate()]))]))
+                out.append((c1, self._split(c)))
         return out
+
+    def _split(self, c: "Cond"):
+        if c in self.assume:
+            return [(True, frozenset())]
+        if c.negate() in self.assume:
+            return [(False, frozenset())]
+        return [(True, frozenset([c])), (False, frozenset([c.negate()]))]
 
     # --------------------------------------------------------- expressions
     def ev(self, node, env, ctx) -> List[Tuple[frozenset, object]]:
@@ -723,6 +772,11 @@ class Evaluator:
             out = []
             for c1, b in self.ev(node.value, env, ctx):
                 for c2, i in self.ev(node.slice, env, ctx):
+                    if isinstance(b, Obj) and b.cls == "dict":
+                        kt = repr(as_term(i))
+                        if kt in b.fields:
+                            out.append((c1 | c2, b.fields[kt]))
+                            continue
                     if isinstance(b, SortedTup) and isinstance(i, Rat) and i.is_const():
                         k = int(i.const_value())
                         if k < 0:
